@@ -81,7 +81,7 @@ package mysql
 
 // ---- C20: structural invariants of the handles (assumed at entry in the sweep; see /verif/govc/typeinv.go) -----
 //@ define nodeInv(n *Node) = n.config != nil && n.logger != nil
-//@ define registryInv(c *Cluster) = c.haNodes != nil && c.cascadeNodes != nil && (forall k string :: has(c.haNodes, k) ==> c.haNodes[k] != nil && c.haNodes[k].host == k && nodeInv(c.haNodes[k])) && (forall k string :: has(c.cascadeNodes, k) ==> c.cascadeNodes[k] != nil && c.cascadeNodes[k].host == k && nodeInv(c.cascadeNodes[k]))
+//@ define registryInv(c *Cluster) = c.haNodes != nil && c.cascadeNodes != nil && c.haNodes != c.cascadeNodes && (forall k string :: has(c.haNodes, k) ==> c.haNodes[k] != nil && alive(c.haNodes[k]) && c.haNodes[k].host == k && nodeInv(c.haNodes[k])) && (forall k string :: has(c.cascadeNodes, k) ==> c.cascadeNodes[k] != nil && alive(c.cascadeNodes[k]) && c.cascadeNodes[k].host == k && nodeInv(c.cascadeNodes[k]))
 //@ define clusterOK(c *Cluster) = c.config != nil && c.logger != nil && c.dcs != nil && c.local != nil && nodeInv(c.local) && registryInv(c)
 //@ typeinv *mysql.Node nodeInv init mysql.NewNode
 //@ typeinv *mysql.Cluster clusterOK init mysql.NewCluster, (*mysql.Cluster).registerLocalNode, (*mysql.Cluster).VerifSetLocal
@@ -104,3 +104,40 @@ package mysql
 //@   ensures C20.status_nonnil [C20]: result1 == nil ==> result0 != nil
 //@ define switchHelperOK(sh *SwitchHelper) = true
 //@ typeinv *mysql.SwitchHelper switchHelperOK init mysql.NewSwitchHelper
+
+// ---- C10 / C20: the registry refresh ---------------------------------------------------------------------------
+// After a successful refresh the HA registry holds exactly the hosts listed in the coordination service and the cascade
+// registry exactly the configured cascade hosts ("never sends a statement to a host that is not registered" rests on
+// this), and every registered handle is non-nil and filed under its own host name (registryInv).
+//@ func mysql.NewNode
+//@   ensures C20.new_node [C20,C10]: result1 == nil && result0 != nil && result0.host == host && result0.config == config && result0.logger == logger
+
+//@ func (*mysql.Cluster).updateHAHostsInfo
+//@   requires ok [inv]: clusterOK(c)
+//@   ensures C10.ha_registry_matches [C10]: result == nil ==> (forall k string :: has(c.haNodes, k) <==> contains(resultof("GetClusterHAFqdnsFromDcs", 1, 0), k))
+//@   ensures C20.registry_inv [C20,C10]: registryInv(c)
+//@   loop 1 invariant set: set != nil && (forall k string :: has(set, k) ==> contains(hosts, k))
+//@   loop 1 invariant seen: forall j int :: {hosts[j]} 0 <= j && j <= rangeindex ==> has(set, hosts[j])
+//@   loop 2 invariant base: c.local != nil && nodeInv(c.local) && c.config != nil && c.logger != nil && c.haNodes != nil && c.cascadeNodes != nil && c.haNodes != c.cascadeNodes
+//@   loop 2 invariant regha: forall k string :: has(c.haNodes, k) ==> c.haNodes[k] != nil && alive(c.haNodes[k]) && c.haNodes[k].host == k && nodeInv(c.haNodes[k])
+//@   loop 2 invariant regcas: forall k string :: has(c.cascadeNodes, k) ==> c.cascadeNodes[k] != nil && alive(c.cascadeNodes[k]) && c.cascadeNodes[k].host == k && nodeInv(c.cascadeNodes[k])
+//@   loop 2 invariant vis: forall k string :: visited[k] ==> has(c.haNodes, k)
+//@   loop 2 invariant kept: forall k string :: loopentry(has(c.haNodes, k)) ==> has(c.haNodes, k)
+//@   loop 2 invariant from: forall k string :: has(c.haNodes, k) ==> loopentry(has(c.haNodes, k)) || has(set, k)
+//@   loop 3 invariant pruned: registryInv(c) && (forall k string :: visited$2[k] && !has(set, k) ==> !has(c.haNodes, k)) && (forall k string :: has(c.haNodes, k) ==> loopentry(has(c.haNodes, k))) && (forall k string :: loopentry(has(c.haNodes, k)) && has(set, k) ==> has(c.haNodes, k))
+
+//@ func (*mysql.Cluster).updateCascadeHostsInfo
+//@   requires ok [inv]: clusterOK(c)
+//@   ensures C10.cascade_registry_matches [C10]: result == nil ==> (forall k string :: has(c.cascadeNodes, k) <==> has(resultof("GetClusterCascadeHostsFromDcs", 1, 0), k))
+//@   ensures C20.registry_inv [C20,C10]: registryInv(c)
+//@   loop 2 invariant base: c.local != nil && nodeInv(c.local) && c.config != nil && c.logger != nil && c.haNodes != nil && c.cascadeNodes != nil && c.haNodes != c.cascadeNodes
+//@   loop 2 invariant regha: forall k string :: has(c.haNodes, k) ==> c.haNodes[k] != nil && alive(c.haNodes[k]) && c.haNodes[k].host == k && nodeInv(c.haNodes[k])
+//@   loop 2 invariant regcas: forall k string :: has(c.cascadeNodes, k) ==> c.cascadeNodes[k] != nil && alive(c.cascadeNodes[k]) && c.cascadeNodes[k].host == k && nodeInv(c.cascadeNodes[k])
+//@   loop 2 invariant vis: forall k string :: visited$2[k] ==> has(c.cascadeNodes, k)
+//@   loop 2 invariant kept: forall k string :: loopentry(has(c.cascadeNodes, k)) ==> has(c.cascadeNodes, k)
+//@   loop 2 invariant from: forall k string :: has(c.cascadeNodes, k) ==> loopentry(has(c.cascadeNodes, k)) || has(hosts, k)
+//@   loop 3 invariant pruned: registryInv(c) && (forall k string :: visited$3[k] && !has(hosts, k) ==> !has(c.cascadeNodes, k)) && (forall k string :: has(c.cascadeNodes, k) ==> loopentry(has(c.cascadeNodes, k))) && (forall k string :: loopentry(has(c.cascadeNodes, k)) && has(hosts, k) ==> has(c.cascadeNodes, k))
+
+//@ func (*mysql.Cluster).UpdateHostsInfo
+//@   requires ok [inv]: clusterOK(c)
+//@   ensures C20.registry_inv [C20,C10]: registryInv(c)
